@@ -57,6 +57,13 @@ func checkC05(c *Ctx) {
 			c.c07Index(b)
 		}
 	}, "R05.2", "backends:one-entry-per-key-hash", []string{"R07.1"}, "hash-of-key", "restore-index")
+	// … and the result (or the failure) of a build is stored: Write performs its store on every path, whatever the caller's
+	// context became during the build (C08 R08.3), also when the key is already present (no LoadOrStore that keeps the old entry)
+	c.borrowKinds("C08", func() {
+		for _, b := range backends {
+			c.c08Backend(b)
+		}
+	}, "R05.2", "backends.Write:stores", []string{"R08.3"}, "write-effect")
 	// R05.7: "a burst costs exactly one successful build" needs the election of C01: one owner per key, the builder only under
 	// ownership, the key lock held until the (possibly background) build is over
 	c.borrow("C01", func() {
